@@ -60,6 +60,19 @@ Section Lift.
       split; [exact If|]. split; [constructor; assumption|].
       cbn [chained]. split; [apply abs_pos|]. rewrite Hp'. exact Chf.
   Qed.
+
+  (* the invariant holds before every call of the history *)
+  Theorem run_invs ops : forall s0, Inv s0 -> Forall okp (snd (run step s0 ops)) ->
+    Forall (fun x : S * O * out => Inv (fst (fst x)) /\ snd x = snd (step (fst (fst x)) (snd (fst x))))
+           (snd (run step s0 ops)).
+  Proof.
+    intros s0. rewrite run_is_run_from. revert s0.
+    induction ops as [|o r IH]; intros s0 I Hok; cbn [run_from] in *; [constructor|].
+    pose proof (step_ok s0 o I) as Hs.
+    destruct (step s0 o) as [s' x] eqn:Est. specialize (IH s'). destruct (run_from s' r) as [sf tr].
+    cbn [fst snd] in *. inversion Hok as [|? ? Ho Hr]; subst.
+    destruct (Hs Ho) as (I' & _). constructor; [cbn [fst snd]; rewrite Est; auto | now apply IH].
+  Qed.
 End Lift.
 
 (* no seek among the ops => the abstract history is seek free *)
@@ -111,7 +124,7 @@ Section Readers.
     - destruct (sample_fill_ok F V r I) as (? & ? & _). auto.
     - now apply sample_consume_ok.
     - now apply sample_next_ok.
-    - now apply sample_seek_ok.
+    - destruct (sample_seek_ok F V r s I Hok) as (? & ? & _). auto.
   Qed.
 
   Theorem sample_refines ops : Forall sop_ok (snd (sample_run F ops)) ->
@@ -144,7 +157,7 @@ Section Readers.
     intros I Hok. destruct o as [|k|s]; cbn [chan_step cop_ok] in *.
     - destruct (chan_fill_ok F V c Hc r I) as (? & ? & _). auto.
     - destruct (chan_consume_ok F V c Hc r k I Hok) as (? & ? & _). auto.
-    - now apply chan_seek_ok.
+    - destruct (chan_seek_ok F V c Hc r s I Hok) as (? & ? & _). auto.
   Qed.
 
   Theorem chan_refines ops : Forall cop_ok (snd (chan_run F ops)) ->
